@@ -109,18 +109,22 @@ Fixpoint filter_map {A B} (f : A -> option B) (l : list A) : list B :=
   end.
 
 (* supported_signature_algorithms<2..2^16-2>.  The loop steps by two up to the declared length
-   sl; when sl is odd the last step reads one byte BEYOND the declared vector (and fails only if
-   there is none).  Unknown schemes are skipped. *)
-Definition cr_sigs_dec (sl : N) (r : bytes) : option (list (N * N)) :=
-  let n := sl + sl mod 2 in
-  if len r <? n then None else Some (filter_map sig_lookup (chunk2 (take n r))).
+   sl.  Since 6845684 an odd sl is refused (ErrLengthMismatch).  [lenient = true] is the decoder
+   as coded before that commit: when sl is odd the last step reads one byte BEYOND the declared
+   vector (and fails only if there is none).  Unknown schemes are skipped. *)
+Definition cr_sigs_dec_gen (lenient : bool) (sl : N) (r : bytes) : option (list (N * N)) :=
+  if negb lenient && (sl mod 2 =? 1) then None
+  else
+    let n := sl + sl mod 2 in
+    if len r <? n then None else Some (filter_map sig_lookup (chunk2 (take n r))).
+Definition cr_sigs_dec : N -> bytes -> option (list (N * N)) := cr_sigs_dec_gen false.
 
 Definition c_cr_cas : codec (list bytes) := c_vec 2 (w_list (c_opaque 2)).
 
 Definition certreq : Type := (list N * (list (N * N) * list bytes))%type.
 
 (* MessageCertificateRequest.Unmarshal; bytes after the authorities are ignored *)
-Definition cr_dec (b : bytes) : option certreq :=
+Definition cr_dec_gen (lenient : bool) (b : bytes) : option certreq :=
   if len b <? 5 then None
   else
     match dec c_cr_types b with
@@ -130,7 +134,7 @@ Definition cr_dec (b : bytes) : option certreq :=
         | None => None
         | Some (sl, r2) =>
             if len r2 <? sl then None
-            else match cr_sigs_dec sl r2 with
+            else match cr_sigs_dec_gen lenient sl r2 with
                  | None => None
                  | Some sigs =>
                      match dec c_cr_cas (drop sl r2) with
@@ -141,17 +145,24 @@ Definition cr_dec (b : bytes) : option certreq :=
         end
     end.
 
+Definition cr_dec : bytes -> option certreq := cr_dec_gen false.
+
 Fixpoint cas_len (cas : list bytes) : N :=
   match cas with [] => 0 | ca :: cas' => len ca + 2 + cas_len cas' end.
 
-(* MessageCertificateRequest.Marshal *)
-Definition cr_enc (x : certreq) : option bytes :=
+(* MessageCertificateRequest.Marshal.  Since 1dbb75b the two 16-bit vectors are checked
+   (ErrCertificateRequestTooLong); [wrap = true] is the encoder as coded before that commit: the
+   lengths were cast to 16 bits, i.e. written modulo 65536 ([be_enc 2] keeps the low 16 bits). *)
+Definition cr_enc_gen (wrap : bool) (x : certreq) : option bytes :=
   let '(tys, (sigs, cas)) := x in
   if (255 <? N.of_nat (length tys)) then None                       (* ErrCertificateTypesTooLong *)
+  else if negb wrap && ((65535 <? N.of_nat (length sigs) * 2) || (65535 <? cas_len cas)) then None
   else
     Some (be_enc 1 (N.of_nat (length tys)) ++ flat_map (be_enc 1) tys ++
           be_enc 2 (N.of_nat (length sigs) * 2) ++ flat_map (fun a => be_enc 2 (sig_scheme_of a)) sigs ++
           be_enc 2 (cas_len cas) ++ flat_map (fun ca => be_enc 2 (len ca) ++ ca) cas).
+
+Definition cr_enc : certreq -> option bytes := cr_enc_gen false.
 
 Definition cr_wf (x : certreq) : bool :=
   let '(tys, (sigs, cas)) := x in
